@@ -116,6 +116,12 @@ class LoadBalancerSink(ClientMessageSink):
           self._AsyncProcessRequestImpl(sink_stack, msg, stream, headers)
       self.__open_ar.rawlink(_on_open_done)
     else:
+      # A sink in front of the balancer may have yielded, and the call may
+      # already have been completed by its timeout (its sink stack drained):
+      # dispatching it would charge a member with load nothing ever releases.
+      timeout_event = msg.properties.get(Deadline.EVENT_KEY, None)
+      if timeout_event and timeout_event.Get():
+        return
       self._AsyncProcessRequestImpl(sink_stack, msg, stream, headers)
 
   def __GetEndpoint(self, instance):
